@@ -28,9 +28,16 @@ class QuicTlsSession:
             self.server_frame_buffer[frame.src_packet.packet_type].sort(key=lambda x: x.offset)
 
             for crypto_frame in list(self.server_frame_buffer[frame.src_packet.packet_type]):
-                if crypto_frame.offset == self.server_offset[frame.src_packet.packet_type]:
-                    self.server_buffer[frame.src_packet.packet_type] += crypto_frame.crypto
-                    self.server_offset[frame.src_packet.packet_type] += crypto_frame.crypto_length
+                # a frame may repeat data that was already delivered (retransmission with other boundaries): only the
+                # part behind the expected offset is new; the frame itself is left as it is (it may be exported with -a)
+                expected = self.server_offset[frame.src_packet.packet_type]
+                end = crypto_frame.offset + crypto_frame.crypto_length
+                if crypto_frame.offset <= expected and (end > expected or crypto_frame.offset == expected):
+                    self.server_buffer[frame.src_packet.packet_type] += crypto_frame.crypto[expected - crypto_frame.offset:]
+                    self.server_offset[frame.src_packet.packet_type] = end
+                    self.server_frame_buffer[frame.src_packet.packet_type].remove(crypto_frame)
+                elif end <= expected:
+                    # nothing new in it
                     self.server_frame_buffer[frame.src_packet.packet_type].remove(crypto_frame)
 
             self.handle_buffer(True)
@@ -39,9 +46,16 @@ class QuicTlsSession:
             self.client_frame_buffer[frame.src_packet.packet_type].sort(key=lambda x: x.offset)
 
             for crypto_frame in list(self.client_frame_buffer[frame.src_packet.packet_type]):
-                if crypto_frame.offset == self.client_offset[frame.src_packet.packet_type]:
-                    self.client_buffer[frame.src_packet.packet_type] += crypto_frame.crypto
-                    self.client_offset[frame.src_packet.packet_type] += crypto_frame.crypto_length
+                # a frame may repeat data that was already delivered (retransmission with other boundaries): only the
+                # part behind the expected offset is new; the frame itself is left as it is (it may be exported with -a)
+                expected = self.client_offset[frame.src_packet.packet_type]
+                end = crypto_frame.offset + crypto_frame.crypto_length
+                if crypto_frame.offset <= expected and (end > expected or crypto_frame.offset == expected):
+                    self.client_buffer[frame.src_packet.packet_type] += crypto_frame.crypto[expected - crypto_frame.offset:]
+                    self.client_offset[frame.src_packet.packet_type] = end
+                    self.client_frame_buffer[frame.src_packet.packet_type].remove(crypto_frame)
+                elif end <= expected:
+                    # nothing new in it
                     self.client_frame_buffer[frame.src_packet.packet_type].remove(crypto_frame)
 
             self.handle_buffer(False)
